@@ -198,6 +198,8 @@ class C01:
 
     def strategy(self, tier):
         hand = ["basic", "sections", "keyval", "deprecated", "nodefault", "names", "ptrs", "tutorial", "ex1", "ex2", "ex3"]
+        COMMENT_BODIES = [" note", "", "x", "* doc ", " a * b ", " 2*3 ", "*", "**", " x **", " * ", "\n * boxed\n * lines\n ", " / * / ", " /* nested opener ",
+                          " \"quoted\" 'q' ", " # // ", " = { } ( ) , += ", " ${HOME} ", "*a*b*c*", " ** ** ", " a *\n* b "]
 
         @st.composite
         def case(draw):
@@ -214,6 +216,15 @@ class C01:
                 toks = draw(gen_text.text_tokens(opts, flags, max_items=6, bad_p=0.02))
                 if draw(st.integers(0, 2)) == 0:
                     toks = draw(gen_text.mutate_tokens(toks, 3))
+                # comments of every style between any two tokens (bodies with stars, slashes, quotes, markers of the other styles)
+                if draw(st.integers(0, 2)) == 0:
+                    for _ in range(draw(st.integers(1, 3))):
+                        style = draw(st.sampled_from(["hash", "slash", "block", "block"]))
+                        body = draw(st.sampled_from(COMMENT_BODIES))
+                        if style != "block":
+                            body = body.replace("\n", " ")
+                        toks = list(toks)
+                        toks.insert(draw(st.integers(0, len(toks))), ["c", body, style])
                 texts.append(toks)
             return {"schema": sc, "flags": flags, "texts": texts}
         return case()
